@@ -41,7 +41,11 @@ def oracle(spec, res):
     for tag in dispatched:
         if tag is None or tag == "later":
             continue
-        caller, idx = tag.split(".")
+        if "." not in tag:
+            continue
+        caller, idx = tag.rsplit(".", 1)
+        if not idx.isdigit():
+            continue
         if seen.get(caller, -1) >= int(idx):
             return "order", "caller %s: call %s executed after call %d of the same thread; execution order %s" % (
                 caller, tag, seen[caller], dispatched)
@@ -54,7 +58,7 @@ def gen_specs(ck, n):
     specs = []
     for _ in range(n):
         nl, nr = rng.choice([(2, 2), (3, 1), (1, 3), (0, 3), (3, 0), (2, 1), (1, 2), (4, 0), (0, 4)])
-        mk = lambda: [rng.choice(["ok", "ok", "exc", "ok", "badres", "islocked", "islocked", "getname", "getsignals"]) for _ in range(rng.randint(2, 5))]
+        mk = lambda: [rng.choice(["ok", "ok", "exc", "ok", "badres", "islocked", "islocked", "getname", "getsignals", "selfcall"]) for _ in range(rng.randint(2, 5))]
         specs.append(dict(local=[mk() for _ in range(nl)], remote=[mk() for _ in range(nr)],
                           fault=rng.choice(["none", "none", "none", "remove", "disconnect", "stop_client"]),
                           nb=[rng.random() < 0.7 for _ in range(4)], burst=True))
